@@ -516,6 +516,45 @@ func work(w *mon.W) {
 					return
 				}
 			}
+			// and as one of several cookies of one response: every value the header hands out
+			// for the repeated Set-Cookie field is the string form of exactly one cookie
+			if pv == nil && err == nil && len(ck.Key()) > 0 {
+				var h3 protocol.ResponseHeader
+				var other protocol.Cookie
+				other.SetKey("zz-other")
+				other.SetValue("o" + legal(rs(r, 3, alphaR)))
+				other.SetMaxAge(77)
+				other.SetHTTPOnly(!ck.HTTPOnly())
+				other.SetDomain("other.example")
+				if r.Bool() {
+					h3.SetCookie(&other)
+					h3.SetCookie(&ck)
+				} else {
+					h3.SetCookie(&ck)
+					h3.SetCookie(&other)
+				}
+				vals := h3.PeekAll("Set-Cookie")
+				got := map[string]string{}
+				for _, v := range vals {
+					var pc protocol.Cookie
+					if e := pc.ParseBytes(append([]byte(nil), v...)); e == nil {
+						got[string(pc.Key())] = pc.String()
+					}
+				}
+				var od protocol.Cookie
+				od.Parse(other.String())
+				w.Count("cookies_read_as_repeated_field", 2)
+				if len(vals) != 2 || got[string(ck.Key())] != d.String() || got["zz-other"] != od.String() {
+					c.Detail = func() interface{} { return map[string]interface{}{"family": "cookie", "cookie": s} }
+					c.Violate("cookie-header-all", "response with the cookies %q and %q: PeekAll(\"Set-Cookie\") returns %d value(s) %q, which parse to %q; want one string form per cookie", s, other.String(), len(vals), vals, got)
+					return
+				}
+				var h4 protocol.ResponseHeader
+				if v4 := h4.PeekAll("Set-Cookie"); len(v4) != 0 {
+					c.Violate("cookie-header-all", "response without cookies: PeekAll(\"Set-Cookie\") returns %d value(s) %q", len(v4), v4)
+					return
+				}
+			}
 			// canary: nothing a cookie or URI operation does may change what an untouched URI reports
 			var canary protocol.URI
 			canary.Parse(nil, []byte("http://canary.host"))
